@@ -309,7 +309,9 @@ class Fn:
             n += 1
         out.append(self.text[pos:])
         if expect is not None:
-            ok = (n == expect) if isinstance(expect, int) else expect(n)
+            # fewer matches than on the reference tree are tolerated (the construct may simply be gone; if it
+            # was needed Verus will say so); more matches than expected mean the rule is ambiguous here
+            ok = (n <= expect) if isinstance(expect, int) else expect(n)
             if not ok:
                 raise LostAnchor('rewrite %r in %s: %d matches' % (pattern, self.name, n))
         self.text = ''.join(out)
@@ -325,10 +327,10 @@ class Fn:
         hits = [m for m in rx.finditer(self.mask)]
         if nth is not None:
             hits = hits[nth:nth + 1]
-        if expect is not None and len(hits) != expect:
+        if expect is not None and len(hits) > expect:
             raise LostAnchor('closure |%s| in %s: %d found, %d expected' % (param, self.name, len(hits), expect))
         if not hits:
-            raise LostAnchor('closure |%s| not found in %s' % (param, self.name))
+            return 0
         edits = []
         for m in hits:
             j = m.end()
